@@ -200,9 +200,18 @@ func checkC11(c *Check, p *Program) {
 		pos := p.Pos(f.Pos())
 		for _, pp := range runEncoder(p, f) {
 			b, found := byteAt(pp, zero, 0)
-			if lenClass(pp, "len(r)") == "long" {
+			// the octet is min(len, 255): the constant 255 is right on a path where len >= 255 throughout, the low
+			// byte of len where len <= 255 throughout
+			iv := pp.env.get("len(r)")
+			switch {
+			case iv.lo >= 255 && found && b.Equal(wantBits("11111111")):
+				c.OK("C11.encode", "Info length octet, oversize path", pos, "= 11111111 for len >= 255")
+			case iv.lo >= 256:
 				expectBits(c, "C11.encode", "Info length octet, oversize path", pos, b, found, "11111111")
-			} else {
+			default:
+				if iv.hi > 255 && found && b.Equal(wantBits("len(r)[7..0]")) {
+					found = false // the low byte of a length above 255 is not the length
+				}
 				expectBits(c, "C11.encode", "Info length octet", pos, b, found, "len(r)[7..0]")
 			}
 			w, ok := nestedAt(pp, linConst(1))
@@ -309,6 +318,10 @@ func checkC11Decode(c *Check, p *Program) {
 			g = got.String()
 		}
 		c.Decide(got != nil && got.Equal(want), "C11.decode", "util."+pr.name+" is big-endian", p.Pos(f.Pos()), "= "+want.String(), "decodes ["+g+"], big-endian order is ["+want.String()+"]")
+	}
+	// Info.Unpack: length octet, then exactly that many octets, owned by the decoded value
+	if f := p.Method("knx/cemi", "Info", "Unpack"); f != nil && len(f.Params) >= 2 {
+		checkLenPrefixedDecoder(c, p, "C11.decode", f)
 	}
 	// LData.Unpack: field order
 	if f := p.Method("knx/cemi", "LData", "Unpack"); f != nil {
@@ -466,6 +479,31 @@ func checkC11Decode(c *Check, p *Program) {
 				}
 			}
 			okLen := mkLen != nil && mkLen.resize(8, false).Equal(wantBits("data[0][7..0]"))
+			// every announced length 1..255 is decoded (a data unit of length 1 is a group read)
+			var l0 ssa.Value
+			instrsOf(tu, func(x ssa.Instruction) {
+				if u, ok := x.(*ssa.UnOp); ok && u.Op == token.MUL && l0 == nil {
+					if ia, ok := u.X.(*ssa.IndexAddr); ok && ia.X == ssa.Value(tu.Params[0]) {
+						if k, isK := constInt(ia.Index); isK && k == 0 {
+							l0 = u
+						}
+					}
+				}
+			})
+			miss := -1
+			okAll := false
+			if l0 != nil {
+				if set, okS := finSetAtRoot(l0, al.Block(), l0); okS {
+					okAll = true
+					for l := 1; l <= 255; l++ {
+						if !set[l] {
+							okAll, miss = false, l
+							break
+						}
+					}
+				}
+			}
+			c.Decide(okAll, "C11.decode", "AppData decoded for every length octet 1..255", p.InstrPos(al), "the data-unit branch is reached for every L >= 1 (given enough octets)", fmt.Sprintf("a data unit with length octet %d is not decoded", miss))
 			c.Decide(okP && okMask && okLen, "C11.decode", "AppData payload: L = octet 0, bytes from octet 2, first byte six bits", p.InstrPos(al), "make(L); copy(_, data[2:]); Data[0] &= 63", fmt.Sprintf("payload extraction differs from the layout (copy from octet 2: %v, six-bit mask: %v, length from octet 0: %v)", okP, okMask, okLen))
 		}
 	})
@@ -532,4 +570,154 @@ func factBit(ev *BitEval, f Cmp) (bit, bool) {
 		res = bitNot(res)
 	}
 	return res, true
+}
+
+// checkLenPrefixedDecoder decides a decoder of the shape "one length octet L,
+// then L octets": L is read from the head of the input; for every L in 1..255
+// the L octets behind the header are copied into a fresh slice of length L
+// that becomes the decoded value; for L = 0 the value is reset; the count
+// reported is header plus copied octets.
+func checkLenPrefixedDecoder(c *Check, p *Program, rule string, f *ssa.Function) {
+	name := FuncName(f)
+	pos := p.Pos(f.Pos())
+	recv, data := f.Params[0], inputParam(f)
+	// the length cell and the call that fills it from the input
+	var cell *ssa.Alloc
+	var hdr *ssa.Call
+	instrsOf(f, func(in ssa.Instruction) {
+		call, ok := in.(*ssa.Call)
+		if !ok || len(call.Common().Args) < 2 || call.Common().Args[0] != ssa.Value(data) {
+			return
+		}
+		a := call.Common().Args[1]
+		for {
+			switch x := a.(type) {
+			case *ssa.MakeInterface:
+				a = x.X
+				continue
+			case *ssa.ChangeType:
+				a = x.X
+				continue
+			}
+			break
+		}
+		if al, ok := a.(*ssa.Alloc); ok {
+			if w, _, okw := typeWidth(al.Type().(*types.Pointer).Elem(), "amd64"); okw && w == 8 {
+				cell, hdr = al, call
+			}
+		}
+	})
+	if cell == nil {
+		c.Fail(rule, name+" reads the length octet from the head of the input", pos, "no call that decodes one octet of the input into a local found")
+		return
+	}
+	c.OK(rule, name+" reads the length octet from the head of the input", p.InstrPos(hdr), "one octet decoded from data[0:]")
+	var hdrN ssa.Value
+	for _, u := range usesOf(hdr) {
+		if ex, ok := u.(*ssa.Extract); ok && ex.Index == 0 {
+			hdrN = ex
+		}
+	}
+	isLen := func(v ssa.Value) bool {
+		u, ok := stripAllConv(v).(*ssa.UnOp)
+		return ok && u.Op == token.MUL && u.X == ssa.Value(cell)
+	}
+	// the copy
+	var mk *ssa.MakeSlice
+	var cp *ssa.Call
+	instrsOf(f, func(in ssa.Instruction) {
+		if m, ok := in.(*ssa.MakeSlice); ok && isLen(m.Len) {
+			mk = m
+		}
+	})
+	if mk != nil {
+		instrsOf(f, func(in ssa.Instruction) {
+			if call, ok := in.(*ssa.Call); ok && builtinName(call) == "copy" && call.Common().Args[0] == ssa.Value(mk) {
+				cp = call
+			}
+		})
+	}
+	if mk == nil || cp == nil {
+		c.Fail(rule, name+" copies the announced octets into a fresh slice", pos, "no make([]byte, length) that the input is copied into")
+		return
+	}
+	okSrc := false
+	if sl, ok := cp.Common().Args[1].(*ssa.Slice); ok && sl.X == ssa.Value(data) && sl.Low != nil && sl.High != nil && hdrN != nil && stripAllConv(sl.Low) == hdrN {
+		if hi, ok := stripAllConv(sl.High).(*ssa.BinOp); ok && hi.Op == token.ADD {
+			okSrc = (stripAllConv(hi.X) == hdrN && isLen(hi.Y)) || (stripAllConv(hi.Y) == hdrN && isLen(hi.X))
+		}
+	}
+	c.Decide(okSrc, rule, name+" copies the announced octets into a fresh slice", p.InstrPos(cp), "copy(make([]byte, L), data[n:n+L])", "the octets copied are not exactly the L octets behind the length octet")
+	// for which L the copy is made
+	var anyLd ssa.Value
+	instrsOf(f, func(in ssa.Instruction) {
+		if u, ok := in.(*ssa.UnOp); ok && u.Op == token.MUL && u.X == ssa.Value(cell) && anyLd == nil {
+			anyLd = u
+		}
+	})
+	set, okS := finSetAtRoot(anyLd, mk.Block(), anyLd)
+	miss := -1
+	if okS {
+		for l := 1; l <= 255; l++ {
+			if !set[l] {
+				miss = l
+				break
+			}
+		}
+	}
+	c.Decide(okS && miss < 0, rule, name+" copies for every length 1..255", p.InstrPos(mk), "the copying branch is taken for every L >= 1", fmt.Sprintf("for L = %d the announced octets are not copied: the decoded value loses them", miss))
+	// the decoded value: the filled slice on the copying path, reset otherwise - one store on every successful path
+	isKeep := func(in ssa.Instruction) bool {
+		st, ok := in.(*ssa.Store)
+		if !ok || st.Addr != ssa.Value(recv) {
+			return false
+		}
+		return true
+	}
+	okKeep := false
+	instrsOf(f, func(in ssa.Instruction) {
+		if st, ok := in.(*ssa.Store); ok && st.Addr == ssa.Value(recv) {
+			v := st.Val
+			if ct, isCT := v.(*ssa.ChangeType); isCT {
+				v = ct.X
+			}
+			if v == ssa.Value(mk) && mk.Block().Dominates(st.Block()) {
+				okKeep = true
+			}
+		}
+	})
+	c.Decide(okKeep, rule, name+" the filled slice becomes the decoded value", p.InstrPos(mk), "*recv = slice the octets were copied into", "the slice the octets were copied into is not stored into the decoded value")
+	nSucc := 0
+	sawSum := false
+	for _, r := range returnsOf(f) {
+		if len(r.Results) < 2 || !p.returnMayBeNil(r, 1) {
+			continue
+		}
+		nSucc++
+		mn, mx, okP := pathCountTo(hdr.Block(), r.Block(), isKeep)
+		c.Decide(okP && mn == 1 && mx == 1, rule, name+" every successful decode sets the value", p.InstrPos(r), "one store to the receiver on every path to this return", fmt.Sprintf("paths to this successful return store the receiver %d..%d times: with an empty block the caller's previous value survives", mn, mx))
+		// count: header alone where nothing was copied, header plus copied octets behind the copy
+		alts := []ssa.Value{r.Results[0]}
+		if ph, ok := r.Results[0].(*ssa.Phi); ok {
+			alts = ph.Edges
+		}
+		okN := true
+		for _, a := range alts {
+			isSum := false
+			if bo, ok := a.(*ssa.BinOp); ok && bo.Op == token.ADD {
+				isSum = (bo.X == hdrN && stripAllConv(bo.Y) == ssa.Value(cp)) || (bo.Y == hdrN && stripAllConv(bo.X) == ssa.Value(cp))
+			}
+			if isSum {
+				sawSum = true
+				continue
+			}
+			if a == hdrN && !cp.Block().Dominates(r.Block()) {
+				continue
+			}
+			okN = false
+		}
+		c.Decide(okN, rule, name+" reports header plus copied octets", p.InstrPos(r), "n, or n + copy(...) behind the copy", "the consumed length is not the length octet plus the octets copied")
+	}
+	c.Decide(sawSum, rule, name+" counts the copied octets", p.InstrPos(cp), "some successful return reports n + copy(...)", "no successful return adds the copied octets to the consumed length")
+	c.Floor(rule, "successful returns of "+name, nSucc, 1)
 }
